@@ -21,7 +21,7 @@ PROP_ENTRIES = {
     'C01': ('try_new', 'new', 'into_inner'), 'C02': ('try_new', 'new', 'into_inner'), 'C07': ('try_new',),
     'C03': ('TryFrom', 'TryFrom<&str>', 'From', 'FromStr', 'Default'),
     'C05': ('try_new', 'new', 'TryFrom', 'TryFrom<&str>', 'From', 'FromStr', 'Default', 'validity'),
-    'C04': ('Deserialize',), 'C10': ('Serialize', 'RoundTrip'), 'C16': ('MessageTruth',), 'C06': ('FromStr',), 'C09': ('Arbitrary',), 'C14': ('ArbitrarySurjective',), 'C11': ('canonical',), 'C13': ('AsRef', 'Deref', 'Borrow', 'Borrow<str>', 'Into', 'into_inner'),
+    'C04': ('Deserialize',), 'C10': ('Serialize', 'RoundTrip'), 'C16': ('MessageTruth', 'MessageNaming', 'Embedding'), 'C06': ('FromStr',), 'C09': ('Arbitrary',), 'C14': ('ArbitrarySurjective',), 'C11': ('canonical',), 'C13': ('AsRef', 'Deref', 'Borrow', 'Borrow<str>', 'Into', 'into_inner'),
 }
 
 
@@ -354,6 +354,19 @@ def c16_decls(tier):
                   validators=[Validator('len_char_min', aux.lit_bound(3)), Validator('not_empty'), Validator('len_char_max', aux.lit_bound(20))],
                   derives=['Debug', 'Deserialize'], props=['C16']))
     out.append(mk('c16_str_max0', 'string', 'String', validators=[Validator('len_char_max', aux.lit_bound(0))], derives=['Debug'], props=['C16']))
+    # bounds written as expressions that have no type of their own: the message must print the value
+    # the validator compares with (the expression evaluated as a value of the inner type), not the
+    # value the expression has as an `i32` / `f64`
+    for did, fam, t, k, src, val, ref in [
+            ('c16_i64_less_untyped_shl31', 'int', 'i64', 'less', '(1 << 31)', 1 << 31, '(2147483648 as i64)'),
+            ('c16_u32_ge_untyped_shl31', 'int', 'u32', 'greater_or_equal', '(1 << 31)', 1 << 31, '(2147483648 as u32)'),
+            ('c16_u64_ge_untyped_not0', 'int', 'u64', 'greater_or_equal', '!0', (1 << 64) - 1, 'u64::MAX'),
+            ('c16_i16_greater_untyped_sum', 'int', 'i16', 'greater', '(100 + 28)', 128, '(128 as i16)'),
+            ('c16_f32_less_untyped_16777217', 'float', 'f32', 'less', '(16777217.0)', 16777216.0, '(16777217.0 as f32)'),
+            ('c16_str_min_untyped_shl31', 'string', 'String', 'len_char_min', '(1 << 31)', 1 << 31, '(2147483648 as usize)')]:
+        d = mk(did, fam, t, validators=[Validator(k, Bound(src=src, spec=str(val) if fam != 'float' else '', ref=ref, value=val))], derives=['Debug'], props=['C16'])
+        d.note = 'untyped-expression-bound'
+        out.append(d)
     return out
 
 
@@ -363,11 +376,34 @@ def c16_part(out: Outcome, tier):
     dr = pipeline.build_dumps(decls, 'C16', features=('serde',))
     verus_decls, float_hs, float_decls = [], [], []
     embed_decls = []
+    nrun_untyped = []
     by_id = {d.id: d for d in decls}
     for d in decls:
         txt = dr.dumps[d.id]
         if 'mod __nutype_' not in txt or d.id in dr.rustc_rejected:
             out.undecided.append('%s: declaration no longer accepted' % d.id)
+            continue
+        if d.note == 'untyped-expression-bound':
+            # decided by running the real code (bounded): the message must name the value the validator
+            # compares with, and what it states must agree with the constructor around that value
+            import copy
+            key0 = '%s::Display(untyped expression bound, run)' % d.id
+            try:
+                wit, wlog = witness.run_witness(copy.copy(d))
+            except Exception as e:
+                wit, wlog = None, repr(e)
+            if wit is None:
+                out.undecided.append('%s: the run did not build: %s' % (key0, (wlog or '')[-200:]))
+                continue
+            out.obligations += 1
+            bad = [w for w in wit if w.get('entry') in ('MessageNaming', 'MessageTruth')]
+            if bad:
+                out.failed.append({'key': key0, 'backend': 'concrete run (bounded)',
+                                   'message': 'the message does not state the bound the validator compares with', 'detail': json.dumps(bad[:3]),
+                                   'decl': d.id, 'decl_obj': d, 'witness': bad})
+            else:
+                out.discharged += 1
+            nrun_untyped.append(d.id)
             continue
         info = c16.analyse(d, txt)
         if info is None:
@@ -452,6 +488,8 @@ def c16_part(out: Outcome, tier):
             out.failed.append({'key': '%s::embedding' % d.id, 'backend': 'concrete run (bounded)', 'message': 'the FromStr / serde error does not contain the validation error\'s Display text',
                                'detail': json.dumps(bad[:3]), 'decl': d.id, 'decl_obj': d, 'witness': bad})
     out.bounded.append('embedding of the validation message in FromStr/serde errors: concrete runs of the real code on boundary inputs for %d declarations (bounded, not counted)' % nrun)
+    if nrun_untyped:
+        out.bounded.append('untyped expression bounds (%s): message naming/truth decided by running the real code on boundary inputs (bounded)' % ', '.join(nrun_untyped))
     out.trusted.append('C16: the phrase -> relation table in vf/c16.py (reading of English) is trusted; unknown wording is undecided')
 
 
